@@ -138,7 +138,7 @@ def harnesses(tier):
     hs.append(Harness('mmap_arrays', 'maps', h_map, jobs=[dict(kind=6, n=3, idbound=14 if q else 16), dict(kind=7, n=N)], defs=('OSMCODE_LIBOSMIUM_VERIF', 'OSMCODE_LIBOSMIUM_VERIF_MMAP_VECTOR_SIZE_INCREMENT=4'),
                       desc='DenseMmapArray and SparseMmapArray on anonymous memory mappings (mmap / mremap / munmap modelled: fresh and grown memory is zero-filled, as the kernel delivers it) with the growth step of the mapping lowered from 2^20 to 4 elements (guarded hook), so that %d insertions make the mapping grow several times: lookups agree with the map model; in particular slots that were mapped but never set read as not found, although zero bytes are the valid location (0, 0)' % N,
                       bounds='3 (dense) / %d (sparse) insertions, ids < 14 (thorough: 16) for the dense array; growth step through OSMCODE_LIBOSMIUM_VERIF_MMAP_VECTOR_SIZE_INCREMENT; file-backed mappings (DenseFileArray, SparseFileArray) are not encoded' % N, native_ok=True, wall=900, step_cap=20_000_000))
-    hs.append(Harness('dump_list', 'maps', h_dump_list, jobs=[dict(kind=1, n=3)], desc='SparseMemArray dump_as_list (write() replaced by a byte recorder): the bytes are the (id, value) records sorted by id', bounds='3 entries'))
+    hs.append(Harness('dump_list', 'maps', h_dump_list, jobs=[dict(kind=1, n=3), dict(kind=5, n=3)], desc='SparseMemArray and SparseMemMap dump_as_list (write() replaced by a byte recorder): the bytes are the (id, value) records sorted by id', bounds='3 entries (block-wise variants that differ only beyond 2^16 entries are outside the bound)'))
     hs.append(Harness('dump_array', 'maps', h_dump_array, jobs=[dict(n=2, idbound=6)], desc='DenseMemArray dump_as_array: slot i holds the value of id i, the empty value elsewhere', bounds='2 entries, ids < 6'))
     hs.append(Harness('node_locations_for_ways', 'maps', h_handler, jobs=[dict(kind=1, nodes=3, refs=2, ignore=0), dict(kind=1, nodes=3, refs=2, ignore=1), dict(kind=0, nodes=2, refs=2, ignore=0, idbound=6)],
                       desc='NodeLocationsForWays with sparse and dense storage: nodes with positive and negative symbolic ids in any order, then a way: every node reference gets the location of the node with that id, not_found iff a referenced node is missing (unless errors are ignored)',
